@@ -331,3 +331,37 @@ Section Text.
       + apply slice_mid.
   Qed.
 End Text.
+
+(* ---- splitting a byte string into its characters: the decidable form of "well-formed UTF-8" ---- *)
+Fixpoint utf8_chars (fuel : nat) (h : list N) : option (list (list N)) :=
+  match fuel with
+  | O => match h with [] => Some [] | _ => None end
+  | S k =>
+      match h with
+      | [] => Some []
+      | b0 :: _ =>
+          let n := utf8_seq_len b0 in
+          let c := firstn n h in
+          if wf_char c then option_map (cons c) (utf8_chars k (skipn n h)) else None
+      end
+  end.
+
+Lemma utf8_chars_ok : forall fuel h cs, utf8_chars fuel h = Some cs -> wf_text cs /\ concat cs = h.
+Proof.
+  induction fuel as [|k IH]; intros h cs E; cbn [utf8_chars] in E.
+  - destruct h; [|discriminate]. inversion E; subst. split; [constructor|reflexivity].
+  - destruct h as [|b0 t]; [inversion E; subst; split; [constructor|reflexivity]|].
+    remember (b0 :: t) as h0. destruct (wf_char (firstn (utf8_seq_len b0) h0)) eqn:Hc; [|discriminate].
+    destruct (utf8_chars k (skipn (utf8_seq_len b0) h0)) as [cs'|] eqn:Er; [|discriminate]. cbn [option_map] in E.
+    inversion E; subst cs. destruct (IH _ _ Er) as [Hw Hcat]. split; [constructor; assumption|].
+    cbn [concat]. rewrite Hcat. apply firstn_skipn.
+Qed.
+
+(* the positions a search visits from a character boundary of well-formed text are boundaries inside the text *)
+Lemma walk_ok_utf8 fold cs : wf_text cs -> forall fuel p, bnd cs p -> walk_ok (utf8_indexer fold) (concat cs) fuel p = true.
+Proof.
+  intro Hw. induction fuel as [|f IH]; intros p Hp; [reflexivity|]. cbn [walk_ok].
+  replace (p <=? length (concat cs))%nat with true by (symmetry; apply Nat.leb_le; apply (bnd_len cs p Hp)).
+  cbn [andb ix_next_right_pos utf8_indexer].
+  destruct (view_fwd cs p Hw Hp) as [_ _ _ Hn|c b0 t Ec Hc Hq' _ _ Hn _ _ _]; rewrite Hn; [reflexivity|]. apply IH. exact Hq'.
+Qed.
